@@ -422,7 +422,13 @@ func c01Blob(p *core.Program, r *core.Report, rule string) {
 					what = fmt.Sprintf("a %d-byte length prefix is written, want %d bytes", len(res[i].hdr), len(cl.hdr))
 				} else {
 					for k := range cl.hdr {
-						if !bits.Equal(res[i].hdr[k], cl.hdr[k]) {
+						got, want := res[i].hdr[k], cl.hdr[k]
+						if len(piece) == 1 && piece[0].lo == piece[0].hi {
+							// a class of one length: the symbol is that constant
+							nm := "len(" + pname.Name + ")"
+							got, want = bits.Assign(got, nm, uint64(piece[0].lo)), bits.Assign(want, nm, uint64(piece[0].lo))
+						}
+						if !bits.Equal(got, want) {
 							what = fmt.Sprintf("prefix byte %d is %s, want %s", k, res[i].hdr[k], cl.hdr[k])
 							break
 						}
@@ -458,6 +464,24 @@ func c01Blob(p *core.Program, r *core.Report, rule string) {
 		r.Undec(rule, "io.(*DataInputX).ReadBlob", rpos, "cannot enumerate the marker classes: "+rerr)
 	} else {
 		rinfo := rd.Pkg.TypesInfo
+		// argOf: what the argument of an operation stands for: locals followed through the statements
+		// of the path and through the bindings in force at the operation (a length computed by an
+		// inlined helper is bound, not assigned in this frame)
+		argOf := func(pth *cePath, em ceEmit, e ast.Expr) ast.Expr {
+			for depth := 0; depth < 6; depth++ {
+				e = stripConvExpr(rinfo, pth, e)
+				id, ok := ast.Unparen(e).(*ast.Ident)
+				if !ok {
+					return e
+				}
+				b, ok := em.Env[rinfo.ObjectOf(id)]
+				if !ok || b == nil {
+					return e
+				}
+				e = b
+			}
+			return e
+		}
 		lenFrom := func(pth *cePath, lenRead string) string {
 			if len(pth.Emits) < 1 {
 				return "no tag read"
@@ -467,18 +491,18 @@ func c01Blob(p *core.Program, r *core.Report, rule string) {
 				if len(em) != 1 || em[0].Method != "ReadBytes" || len(em[0].Call.Args) != 1 {
 					return "reads [" + emitNames(em) + "], want ReadBytes(tag)"
 				}
-				if stripConvExpr(rinfo, pth, em[0].Call.Args[0]) != ast.Expr(pth.Emits[0].Call) {
+				if argOf(pth, em[0], em[0].Call.Args[0]) != ast.Expr(pth.Emits[0].Call) {
 					return "ReadBytes is not sized by the length byte: " + emitNames(em)
 				}
 			} else {
 				if len(em) != 2 || em[0].Method != lenRead || em[1].Method != "ReadBytes" || len(em[1].Call.Args) != 1 {
 					return "reads [" + emitNames(em) + "], want " + lenRead + " then ReadBytes(that)"
 				}
-				if stripConvExpr(rinfo, pth, em[1].Call.Args[0]) != ast.Expr(em[0].Call) {
+				if argOf(pth, em[1], em[1].Call.Args[0]) != ast.Expr(em[0].Call) {
 					return "ReadBytes is not sized by the length just read: " + emitNames(em)
 				}
 			}
-			if pth.Ret == nil || stripConvExpr(rinfo, pth, pth.Ret) != ast.Expr(em[len(em)-1].Call) {
+			if pth.Ret == nil || argOf(pth, em[len(em)-1], pth.Ret) != ast.Expr(em[len(em)-1].Call) {
 				return "the bytes read are not what is returned (" + pth.RetS + ")"
 			}
 			return ""
@@ -508,7 +532,9 @@ func c01Blob(p *core.Program, r *core.Report, rule string) {
 		if p0 := pathFor(rpaths, 0); p0 == nil {
 			r.Viol(rule, "io.ReadBlob 0", rpos, "length byte 0 is not decoded")
 		} else {
-			r.Check(len(p0.Emits) == 1 && p0.Ret != nil, rule, "io.ReadBlob 0", rpos, "0 -> empty, nothing read", "length byte 0 reads ["+emitNames(p0.Emits[1:])+"]; want an empty result without reading")
+			// nothing is read: no further operation, or ReadBytes sized by the length byte itself (0 bytes)
+			zeroRead := len(p0.Emits) == 2 && p0.Emits[1].Method == "ReadBytes" && len(p0.Emits[1].Call.Args) == 1 && argOf(p0, p0.Emits[1], p0.Emits[1].Call.Args[0]) == ast.Expr(p0.Emits[0].Call)
+			r.Check((len(p0.Emits) == 1 || zeroRead) && p0.Ret != nil, rule, "io.ReadBlob 0", rpos, "0 -> empty, nothing read", "length byte 0 reads ["+emitNames(p0.Emits[1:])+"]; want an empty result without reading")
 		}
 	}
 	// WriteText ≅ WriteBlob([]byte(s)), ReadText ≅ string(ReadBlob())
